@@ -213,6 +213,52 @@ ContractFamily(z) ==
            e \in {<<"ii->i", <<3, 3>> >>, <<"ii", <<3, 3>> >>, <<"ij->j", <<2, 3>> >>, <<"ij->", <<2, 3>> >>, <<"ij->ji", <<2, 3>> >>, <<"i...->...", <<3, 2>> >>, <<"...i->i...", <<2, 3>> >>}}
 
 
+\* ---------------------------------------------------------------- the SciPy wrappers: autograd.scipy.special / .stats / .linalg / .signal
+\* prim = "<module>.<name>" below autograd.scipy.  Differentiated argument = argnum; a position without a registered rule must raise.
+\* (The repository's own interpreter has no SciPy, so its test suite never runs these rules; the replay uses the tooling interpreter.)
+SciShapes == {<<>>, <<3>>, <<2, 3>>, <<1, 3>>, <<2, 1>>}
+SciPairs == {pr \in SciShapes \X SciShapes : BroadcastOK(pr[1], pr[2])}
+SciTriples == {t \in SciShapes \X SciShapes \X SciShapes : BroadcastOK(t[1], t[2]) /\ BroadcastOK(Broadcast(t[1], t[2]), t[3])}
+S1(prim, s, s2, s3, n, ia, ax, kd, tp, st) == Cfg(prim, "func", s, s2, s3, n, ax, kd, ia, 0, tp, st, "rr", "array", NA)
+SciUnary == {"special.gammaln", "special.gamma", "special.rgamma", "special.psi", "special.digamma", "special.erf", "special.erfc", "special.erfinv",
+             "special.erfcinv", "special.logit", "special.expit", "special.i0", "special.i1", "special.j0", "special.j1", "special.y0", "special.y1",
+             "special.gammasgn"}
+SciOrder == {"special.polygamma", "special.jn", "special.yn", "special.iv", "special.ive"}       \* f(n, x), n an integer order (ia)
+SciBinary == {"special.beta", "special.betaln", "special.gammainc", "special.gammaincc", "stats.gamma.pdf", "stats.gamma.logpdf", "stats.gamma.cdf",
+              "stats.chi2.pdf", "stats.chi2.logpdf", "stats.chi2.cdf", "stats.poisson.pmf", "stats.poisson.logpmf", "stats.poisson.cdf"}
+SciTernary == {"special.betainc", "stats.norm.pdf", "stats.norm.cdf", "stats.norm.sf", "stats.norm.logpdf", "stats.norm.logcdf", "stats.norm.logsf",
+               "stats.beta.pdf", "stats.beta.logpdf", "stats.beta.cdf"}
+SciT == {"stats.t.pdf", "stats.t.cdf", "stats.t.logpdf", "stats.t.logcdf"}                       \* (x, df, loc, scale); scale has loc's shape
+LseShapes == {<<3>>, <<2, 3>>, <<1, 3>>, <<3, 1>>} \cup (IF MaxRank >= 3 THEN {<<2, 3, 2>>, <<2, 1, 3>>} ELSE {})
+ScipyFamily(z) ==
+  {S1(p, sh, <<>>, <<>>, 0, 0, NoAx, FALSE, <<>>, "-") : p \in SciUnary, sh \in SciShapes}
+  \cup {S1(p, sh, <<>>, <<>>, 1, k, NoAx, FALSE, <<>>, "-") : p \in SciOrder, sh \in SciShapes, k \in 0..3}
+  \cup {S1("special.multigammaln", sh, <<>>, <<>>, 0, d, NoAx, FALSE, <<>>, "-") : sh \in SciShapes, d \in 1..3}
+  \cup {S1(p, pr[1], pr[2], <<>>, n, 0, NoAx, FALSE, <<>>, "-") : p \in SciBinary, pr \in SciPairs, n \in {0, 1}}
+  \cup {S1(p, t[1], t[2], t[3], n, 0, NoAx, FALSE, <<>>, "-") : p \in SciTernary, t \in SciTriples, n \in 0..2}
+  \cup {S1(p, t[1], t[2], t[3], n, 0, NoAx, FALSE, <<>>, st) : p \in SciT, t \in SciTriples, n \in 0..3, st \in {"-", "kw"}}
+  \* logsumexp(x, axis, b, keepdims): weights b absent / a scalar / an array of x's shape / broadcast along the first axis
+  \cup UNION {{S1("special.logsumexp", sh, <<>>, <<>>, 0, 0, ax, kd, <<>>, st) :
+                 ax \in AxisChoices(Len(sh)), kd \in BOOLEAN, st \in {"-", "bscalar", "b", "bbroadcast"}} : sh \in LseShapes}
+  \cup {S1(p, <<3>>, <<3>>, <<>>, n, 0, NoAx, FALSE, <<>>, "-") : p \in {"stats.dirichlet.pdf", "stats.dirichlet.logpdf"}, n \in {0, 1}}
+  \cup {S1(p, sh, <<3>>, <<3, 3>>, n, 0, NoAx, FALSE, <<>>, st) : p \in {"stats.multivariate_normal.pdf", "stats.multivariate_normal.logpdf"},
+           sh \in {<<3>>, <<2, 3>>, <<2, 2, 3>>}, n \in 0..2, st \in {"-", "singular"}}
+  \cup {S1("stats.multivariate_normal.entropy", <<3>>, <<3, 3>>, <<>>, n, 0, NoAx, FALSE, <<>>, "-") : n \in {0, 1}}
+  \cup {S1("linalg.sqrtm", sh, <<>>, <<>>, 0, 0, NoAx, FALSE, <<>>, "-") : sh \in {<<2, 2>>, <<3, 3>>}}
+  \* solve_triangular(a, b, trans, lower): trans as int (ia) or as 'N' / 'T' / 'C'
+  \cup {S1("linalg.solve_triangular", <<3, 3>>, b, <<>>, n, tr, NoAx, lo, <<>>, st) :
+           b \in {<<3>>, <<3, 2>>}, n \in {0, 1}, tr \in 0..2, lo \in BOOLEAN, st \in {"int", "str", "default"}}
+  \cup {S1("linalg.solve_sylvester", <<2, 2>>, <<3, 3>>, <<2, 3>>, n, 0, NoAx, FALSE, <<>>, "-") : n \in 0..2}
+  \* solve_banded((l, u), ab, b): ab has l + u + 1 rows; argnum 1 = ab, 2 = b
+  \cup {S1("linalg.solve_banded", <<lu[1] + lu[2] + 1, 4>>, b, <<>>, n, 0, NoAx, FALSE, lu, "-") :
+           lu \in {<<1, 1>>, <<1, 0>>, <<0, 1>>, <<2, 1>>, <<0, 0>>}, b \in {<<4>>, <<4, 2>>}, n \in {1, 2}}
+  \* signal.convolve(A, B, axes, dot_axes, mode); ia selects the axes layout:
+  \*   0 axes=None   1 axes=([1],[1]) dot_axes=([0],[0])   2 axes=([1],[0]) (A's axis 0 is kept)   3 axes=([0,1],[0,1])   4 axes=([1],[1]) (both keep axis 0)
+  \cup {S1("signal.convolve", q[1], q[2], <<>>, n, q[3], NoAx, FALSE, <<>>, md) : n \in {0, 1}, md \in {"full", "valid"},
+           q \in {<< <<3>>, <<4>>, 0>>, << <<5>>, <<3>>, 0>>, << <<3>>, <<3>>, 0>>, << <<2, 3>>, <<3, 4>>, 0>>, << <<3, 3>>, <<2, 2>>, 0>>,
+                  << <<2, 3>>, <<2, 5>>, 1>>, << <<2, 5>>, <<2, 3>>, 1>>, << <<2, 3>>, <<4>>, 2>>, << <<2, 4>>, <<3>>, 2>>,
+                  << <<2, 3>>, <<3, 4>>, 3>>, << <<2, 3>>, <<3, 5>>, 4>>}}
+
 \* ---------------------------------------------------------------- index expressions  x[idx]  (C11)
 \* An index is a sequence of items (st = "tuple": passed as a tuple; "bare": the single item itself; "list": a top-level Python list).
 \* Items: [t |-> "int", v], [t |-> "slice", v |-> <<start, stop, step>>] with 9 = None, [t |-> "ell"], [t |-> "new"],
@@ -435,6 +481,7 @@ Space == CASE Family = "binary" -> BinaryFamily(0)
                                                                         /\ Cardinality({i \in DOMAIN cc.tp : cc.tp[i].t = "ell"}) <= 1},
                                         d \in (0..2) \X (0..2)}
            [] Family = "contract" -> ContractFamily(0)
+           [] Family = "scipy" -> ScipyFamily(0)
 
 VARIABLES cfg, emitted
 Init == cfg \in Space /\ emitted = FALSE
